@@ -20,7 +20,10 @@ REGISTRATION = {
             "create's loop over several models in one upload (server/create.go ggufLayers) is modelled on top, with "
             "non-termination as an explicit outcome: it terminates (every successful decode ends after the position it "
             "started at: decodeFrom_progress) and is safe for every byte string (create_terminates_tree, create_safe_tree); "
-            "upstream's pinned decoder has a 57-byte witness on which create never answers. "
+            "upstream's pinned decoder has a 57-byte witness on which create never answers. The typed metadata accessors the "
+            "handlers call on the decoded key/values (Kind, Architecture, FileType, ChatTemplate, vision.block_count → media "
+            "type) are in the model with the failed type assertion as an outcome: never reached on the tree "
+            "(create_upload_safe_tree), 60-byte witness for upstream's unchecked assertion. "
             "Which validations the tree has is not asserted: outcome classes (ok+summary / io.EOF / io.ErrUnexpectedEOF / "
             "other error / panic site / allocation) of model(Guards.tree) and real decoder are compared on thousands of "
             "mutated/truncated/crafted files per run in a memory-limited worker process, with a directed search (length "
@@ -43,6 +46,9 @@ THEOREMS = [
     "OllamaVerif.C10.create_terminates_tree",
     "OllamaVerif.C10.create_safe_tree",
     "OllamaVerif.C10.create_layers_within",
+    "OllamaVerif.C10.create_upload_terminates_tree",
+    "OllamaVerif.C10.create_upload_safe_tree",
+    "OllamaVerif.C10.witness_pinned_accessor_panics",
     "OllamaVerif.Gguf.decodeFrom_progress",
     "OllamaVerif.C10.witness_pinned_create_never_answers",
     "OllamaVerif.C10.witness_alignment_zero",
